@@ -20,7 +20,9 @@
 package main
 
 import (
+	"encoding/json"
 	"errors"
+	"flag"
 	"fmt"
 	"math/rand"
 	"os"
@@ -656,8 +658,18 @@ func corpus() []input {
 
 // ---------- main ----------
 
+var dumpCorpus = flag.String("dump-corpus", "", "write the built-in corpus as replay files into this directory and exit")
+
 func main() {
 	o := hx.Parse()
+	if *dumpCorpus != "" {
+		c0809.Must(os.MkdirAll(*dumpCorpus, 0o755))
+		for i, in := range corpus() {
+			b, _ := json.MarshalIndent(map[string]interface{}{"property": "C09", "input": in}, "", " ")
+			c0809.Must(os.WriteFile(filepath.Join(*dumpCorpus, fmt.Sprintf("corpus_%02d.json", i)), b, 0o644))
+		}
+		return
+	}
 	rng := o.Rng()
 	workDir = filepath.Join(o.Out, "scratch")
 	c0809.Must(os.MkdirAll(workDir, 0o755))
@@ -688,7 +700,7 @@ func main() {
 		for _, s := range allSettings() {
 			inputs = append(inputs, input{Kind: "grid", Setting: s, Calls: genCalls(rng, o.Count(40, 400))})
 		}
-		ng, ns := o.Count(30, 2000), o.Count(150, 6000)
+		ng, ns := o.Count(60, 2000), o.Count(300, 6000)
 		if o.Search {
 			ng, ns = ng/2, ns*3
 		}
